@@ -1812,6 +1812,26 @@ def unit_grouprows(inj, scratch):
     return dict(functions=[r], dropped=[d], assumptions=['std HashMap / Vec::sort_by (stable) / Rc behave as their heap-free stand-ins'])
 
 
+def unit_walk(inj, scratch):
+    """Searcher::visit_dir: the WHOLE function (signature included) verbatim on a scripted, heap-free file-system world."""
+    frag_begin(inj)
+    s = src('src/searcher.rs', scratch)
+    it = s.fn('visit_dir', impl='Searcher')
+    whole = dedent(s.text[it['sig_start']:it['end']])
+    gen = whole
+    ren = []
+    for a_, b_ in [('crate::util::canonical_path', 'util_shim::canonical_path'), ('crate::util::calc_depth', 'util_shim::calc_depth')]:
+        if a_ in gen:
+            gen = gen.replace(a_, b_); ren.append(a_ + ' -> ' + b_)
+    text = ('pub mod walk {\npub mod world {\n' + H('frag_walk_prelude.rs') + '\nimpl Searcher {\n// ---- verbatim: fn visit_dir ----\npub ' + gen + '\n}\n}\n' + H('frag_walk.kani.rs') + '\n}\n')
+    inj.new_file(FRAG_FILE, text)
+    r, d = frag_record('walk::Searcher::visit_dir', 'src/searcher.rs', 'impl Searcher / fn visit_dir (whole function incl. signature, verbatim, as a method of a shim Searcher)', whole, gen,
+                       ren + ['Path / PathBuf / DirEntry / FileType / fs::read_dir / read_link / File / zip / git2::Repository / ignore filters / HashSet / VecDeque -> a scripted six-node file system and heap-free stand-ins with the same method names; '
+                              'check_file -> recorder that counts in `found`; ok_to_visit_dir -> "once per directory"'],
+                       'the OS (readdir order, errors, symlinks), archives, ignore files; check_file (C06.found.accounting, C07.columns.evaluated) and ok_to_visit_dir (C01.ok_to_visit) themselves')
+    return dict(functions=[r], dropped=[d], assumptions=['the scripted file system: six nodes, three levels, no symlinks, no archives, no ignore rules, no I/O errors'])
+
+
 def unit_rowflow(inj, scratch):
     frag_begin(inj)
     s = src('src/searcher.rs', scratch)
